@@ -280,6 +280,9 @@ class Ref:
         env[st[1]] = self.ev(inst, st[2], env)
         for n2 in (st[3] if len(st) > 3 else []):
           env[n2] = env[st[1]]
+      elif k == "tmpset":
+        m = mask(st[3] - st[2]) << st[2]
+        env[st[1]] = (env[st[1]] & ~m) | ((self.ev(inst, st[4], env) << st[2]) & m)
       elif k == "if":
         if self.ev(inst, st[1], env):
           self.run_stmts(inst, st[2], env, write)
@@ -418,6 +421,8 @@ class _Static:
         writes.update(self.path_bits(inst, st[1], reads))
       elif k == "tmp":
         self.expr_bits(inst, st[2], reads)
+      elif k == "tmpset":
+        self.expr_bits(inst, st[4], reads)
       elif k == "if":
         self.expr_bits(inst, st[1], reads)
         self.stmts(inst, st[2], reads, writes)
